@@ -1,6 +1,7 @@
 package rules
 
 import (
+	"fmt"
 	"go/constant"
 	"go/token"
 	"go/types"
@@ -1113,4 +1114,114 @@ func reachableUnder(alts map[string]bool, sigma map[string]bool) bool {
 		}
 	}
 	return false
+}
+
+// ---------------------------------------------------------------------------
+// forward exploration with boolean flags
+
+// flagWalk explores the paths that start with the edge from→to, carrying the boolean values that
+// are known on the way: a φ of booleans takes the constant (or the known value) that flows in on
+// the edge taken, `!x` of a known x is known, and an If on a known value is followed on that side
+// only. A flag set in a loop and tested by the loop condition and again after the loop
+// (`failed = true` … `for … && !failed` … `if failed { return err }`) is thereby followed to the
+// return it selects. visit is called for every block entered (with the predecessor it was entered
+// from); ret for every Return reached, with the error kind of its error result on that path
+// ("err", "ok" or "unknown").
+func flagWalk(fn *ssa.Function, from, to *ssa.BasicBlock, visit func(b, pred *ssa.BasicBlock), ret func(r *ssa.Return, kind string)) {
+	type state struct {
+		b, pred *ssa.BasicBlock
+		sig     string
+	}
+	seen := map[state]bool{}
+	errIdx := errResultIndex(fn)
+	var walk func(b, pred *ssa.BasicBlock, known map[ssa.Value]bool)
+	walk = func(b, pred *ssa.BasicBlock, known map[ssa.Value]bool) {
+		// φ-nodes and negations of this block
+		nk := map[ssa.Value]bool{}
+		for k, v := range known {
+			nk[k] = v
+		}
+		pi := -1
+		for i, p := range b.Preds {
+			if p == pred {
+				pi = i
+			}
+		}
+		phiVal := map[*ssa.Phi]ssa.Value{}
+		for _, in := range b.Instrs {
+			switch x := in.(type) {
+			case *ssa.Phi:
+				if pi < 0 || pi >= len(x.Edges) {
+					delete(nk, x)
+					continue
+				}
+				e := x.Edges[pi]
+				phiVal[x] = e
+				if !isBoolType(x.Type()) {
+					continue
+				}
+				if k, ok := e.(*ssa.Const); ok && k.Value != nil && k.Value.Kind() == constant.Bool {
+					nk[x] = constant.BoolVal(k.Value)
+				} else if v, ok := known[e]; ok {
+					nk[x] = v
+				} else {
+					delete(nk, x)
+				}
+			case *ssa.UnOp:
+				if x.Op == token.NOT {
+					if v, ok := nk[x.X]; ok {
+						nk[x] = !v
+					} else {
+						delete(nk, x)
+					}
+				}
+			}
+		}
+		var keys []string
+		for k, v := range nk {
+			keys = append(keys, fmt.Sprintf("%s=%v", k.Name(), v))
+		}
+		sort.Strings(keys)
+		st := state{b, pred, strings.Join(keys, ";")}
+		if seen[st] {
+			return
+		}
+		seen[st] = true
+		if visit != nil {
+			visit(b, pred)
+		}
+		switch t := b.Instrs[len(b.Instrs)-1].(type) {
+		case *ssa.Return:
+			kind := "ok"
+			if errIdx >= 0 && errIdx < len(t.Results) {
+				ev := t.Results[errIdx]
+				if phi, ok := ev.(*ssa.Phi); ok && phi.Block() == b {
+					if e, ok := phiVal[phi]; ok {
+						ev = e
+					}
+				}
+				kind = classifyErrValue(ev)
+			}
+			if ret != nil {
+				ret(t, kind)
+			}
+		case *ssa.If:
+			if v, ok := nk[t.Cond]; ok && b.Succs[0] != b.Succs[1] {
+				if v {
+					walk(b.Succs[0], b, nk)
+				} else {
+					walk(b.Succs[1], b, nk)
+				}
+				return
+			}
+			for _, s := range b.Succs {
+				walk(s, b, nk)
+			}
+		default:
+			for _, s := range b.Succs {
+				walk(s, b, nk)
+			}
+		}
+	}
+	walk(to, from, map[ssa.Value]bool{})
 }
